@@ -71,7 +71,8 @@ func rsetLine(routes []rroute) string {
 	return strings.Join(parts, " ")
 }
 
-var segLits = []string{"a", "ab", "b", "c", "abc", "u", "a-b", "x.y"}
+// static texts: also some that sort after '{' ('~', '|'), before every letter ('0', '-') and upper case
+var segLits = []string{"a", "ab", "b", "c", "abc", "u", "a-b", "x.y", "~me", "~", "|x", "Zed", "0", "_x"}
 
 func genTemplate(rng *lp.Rand) string {
 	nseg := 1 + rng.Intn(3)
